@@ -183,12 +183,12 @@ def entry_points() -> dict[str, list[tuple[str, Callable[[Any], Any], bool]]]:
     address = [
         ("b58.h160_from_address", b58.h160_from_address, False), ("b32.witness_from_address", b32.witness_from_address, False),
         ("b32.is_segwit_prefixed", b32.is_segwit_prefixed, False), ("bech32.decode", bech32.decode, False), ("base58.decode", base58.decode, False),
-        ("ScriptPubKey.from_address", ScriptPubKey.from_address, False), ("descriptors.from_address", descriptors.from_address, False),
+        ("ScriptPubKey.from_address", ScriptPubKey.from_address, False), ("ScriptPubKey.from_address->address", lambda t: (lambda k: (k.address, k.type))(ScriptPubKey.from_address(t)), False), ("descriptors.from_address", descriptors.from_address, False),
         ("silent_payments.keys_from_address", sp.keys_from_address, False), ("bip21.Bip21.parse/bare", lambda t: bip21.Bip21.parse("bitcoin:" + t) if isinstance(t, str) else None, False),
         ("bms.verify/address", lambda t: bms.verify(b"msg", t, b"\x1f" + b"\x01" * 64), True), ("bip322.verify/address", lambda t: bip322.verify(b"msg", t, "AA=="), True),
     ]
     xkey = [
-        ("BIP32KeyData.b58decode", bip32.BIP32KeyData.b58decode, False), ("bip32.derive/key", lambda t: bip32.derive(t, "m/0"), False),
+        ("BIP32KeyData.b58decode", bip32.BIP32KeyData.b58decode, False), ("BIP32KeyData.b58decode->b58encode", lambda t: bip32.BIP32KeyData.b58decode(t).b58encode(), False), ("bip32.derive/key", lambda t: bip32.derive(t, "m/0"), False),
         ("bip32.xpub_from_xprv", bip32.xpub_from_xprv, False), ("slip132.address_from_xkey", slip132.address_from_xkey, False),
         ("to_pub_key.pub_keyinfo_from_key", to_pub_key.pub_keyinfo_from_key, False), ("to_prv_key.prv_keyinfo_from_prv_key", to_prv_key.prv_keyinfo_from_prv_key, False),
         ("bip44.address_from_der_path/key", lambda t: bip44.address_from_der_path(t, "m/84h/0h/0h/0/0"), False),
@@ -199,6 +199,7 @@ def entry_points() -> dict[str, list[tuple[str, Callable[[Any], Any], bool]]]:
         ("descriptors.checksum", descriptors.checksum, False), ("descriptors.add_checksum", descriptors.add_checksum, False),
         ("descriptors.strip_checksum", descriptors.strip_checksum, False), ("descriptors.multipath_descriptors", descriptors.multipath_descriptors, False),
         ("core_import.import_request", lambda t: core_import.import_request(t, "now"), False), ("DescriptorWallet.from_descriptor", DescriptorWallet.from_descriptor, False),
+        ("descriptors.parse->str->script", lambda t: (lambda d: (str(d), descriptors.add_checksum(str(d)), d.script_pub_key(0)))(descriptors.parse(t)), False),
     ]
     paths = [
         ("der_path.indexes_from_der_path", der_path.indexes_from_der_path, False), ("der_path.indexes_from_der_path/bip380", lambda t: der_path.indexes_from_der_path(t, bip380_enforced=True), False),
@@ -234,7 +235,12 @@ def entry_points() -> dict[str, list[tuple[str, Callable[[Any], Any], bool]]]:
         "addr58": address, "addr32": address, "sp": address, "xprv": xkey, "xpub": xkey, "tprv": xkey, "wif": keys, "descriptor": desc,
         "miniscript": [("miniscript.parse", miniscript.parse, False), ("miniscript.parse/in-wsh", lambda t: descriptors.parse("wsh(" + t + ")") if isinstance(t, str) else None, False)],
         "miniscript-tap": [("miniscript.parse/tapscript", lambda t: miniscript.parse(t, "tapscript"), False), ("miniscript.parse/in-tr", lambda t: descriptors.parse("tr(" + X1 + "," + t + ")") if isinstance(t, str) else None, False)],
-        "uri": [("bip21.Bip21.parse", bip21.Bip21.parse, False), ("bip21.Bip21.parse/cv-off", lambda t: bip21.Bip21.parse(t, check_validity=False), False)],
+        "uri": [
+            ("bip21.Bip21.parse", bip21.Bip21.parse, False), ("bip21.Bip21.parse/cv-off", lambda t: bip21.Bip21.parse(t, check_validity=False), False),
+            # an accepted object handed to its consumer: the text it writes back
+            ("bip21.Bip21.parse->serialize", lambda t: bip21.Bip21.parse(t).serialize(), False),
+            ("bip21.Bip21.parse->serialize/cv-off", lambda t: bip21.Bip21.parse(t, check_validity=False).serialize(check_validity=False), False),
+        ],
         "path": paths, "origin": [("BIP32KeyOrigin.from_description", key_origin.BIP32KeyOrigin.from_description, False), ("descriptors.parse/origin", lambda t: descriptors.parse("wpkh([" + t + "]" + xpub + "/0/*)") if isinstance(t, str) else None, False)],
         "bip39": mnemonic, "electrum": mnemonic, "old-electrum": mnemonic, "slip39": mnemonic, "hex": blob, "b64": blob, "pubkey": keys, "prvkey": keys,
         "amount": [
@@ -357,7 +363,10 @@ def _run(ctx: Ctx) -> None:
     try:
         c = corpus()
         table = entry_points()
+        spent = 0
         for _ in range(1 + ch.draw(6, "n.texts")):
+            if spent > 2 * MAX_TEXT:
+                break  # a run's work stays bounded whatever the draws: two long texts are a run
             kind = ch.pick(sorted(table), "kind")
             source = c[kind]
             text = source if isinstance(source, str) else source[ch.draw(len(source), "exemplar")]
@@ -366,11 +375,12 @@ def _run(ctx: Ctx) -> None:
             what = "intact"
             if faulty:
                 given, what = damage(ch, text)
-                if isinstance(given, str) and ch.draw(3, "dmg.twice") == 0:
+                if isinstance(given, str) and len(given) <= 20_000 and ch.draw(3, "dmg.twice") == 0:
                     given, what2 = damage(ch, given)
                     what += "+" + what2
                 ctx.fault("text-" + what.split(":")[0].split("+")[0])
             ctx.log("text", kind, what, len(given))
+            spent += len(given)
             ctx.state(f"{kind}:{what.split(':')[0]}")
             for site, fn, predicate in table[kind]:
                 if not isinstance(given, str) and not _takes_bytes(fn):
@@ -387,7 +397,7 @@ CHECKS = {
     "C19": {
         "level": "fault_enumeration",
         "plans": lambda tier: [
-            Plan("text", {"faults": True}, share=1.2, chunk=40, label="text/damaged"),
+            Plan("text", {"faults": True}, share=4.0, chunk=40, label="text/damaged"),
             Plan("text", {"faults": False}, share=0.1, chunk=40, label="text/intact"),
         ],
         "rule": (
